@@ -1,6 +1,7 @@
 (* C10 - Outcomes do not depend on ballot order, candidate names or hash seed.
    Property theorems only.  Models: Model/GetNBest.v, Prelude/GDict.v (additive converters);
-   proofs: Proofs/Order_proofs.v, Proofs/Convert_proofs.v.
+   Model/QuotaDistributor.v, Model/STV.v; proofs: Proofs/Order_proofs.v, Proofs/Convert_proofs.v,
+   Proofs/HAPerm_proofs.v, Proofs/HARename_proofs.v, Proofs/QDOrder_proofs.v, Proofs/STVOrder_proofs.v.
 
    The models are structural: they use equality on candidates only (never an order on names, never
    a hash), so "identical under every interpreter hash seed" has no counterpart to prove on the
